@@ -12,6 +12,8 @@ CONSTANTS
   NoEvent = {2}
   Big = {}
   SlotRep <- MCSlotRep2
+  OCells = {1}
+  OKeys = {1}
   Forms = {"reput"}
   RefIds = {1}
   BorrowTys = {"N", "R"}
